@@ -186,6 +186,8 @@ func (a *an) sessionCensus(fans []*fanout) []sessWrite {
 		}
 	}
 
+	lastCG = cgResult{funcs: funcs, order: order, reach: reach} // stateful.go reads the same call graph
+
 	// the writes
 	var out []sessWrite
 	for _, k := range order {
